@@ -68,11 +68,21 @@ class DataFrame(Entity, DataSet):
             new_da.append(row_tuple)
         farr = np.ascontiguousarray(new_da, dtype=dt)
         units = self.units
-        del self._h5group.group['data']
-        # create the dataset through create_dataset so that it is chunked
-        # and resizable like the original one (rows can still be appended)
-        self._h5group.create_dataset("data", (len(farr),), dt)
-        self.write_direct(farr)
+        # keep the stored table until the new one is written: a column that
+        # cannot be stored must not cost the existing data
+        h5grp = self._h5group.group
+        h5grp.move("data", "data.old")
+        try:
+            # create the dataset through create_dataset so that it is chunked
+            # and resizable like the original one (rows can still be appended)
+            self._h5group.create_dataset("data", (len(farr),), dt)
+            self.write_direct(farr)
+        except Exception:
+            if "data" in h5grp:
+                del h5grp["data"]
+            h5grp.move("data.old", "data")
+            raise
+        del h5grp["data.old"]
         if units is not None:
             # keep one unit entry per column
             self.units = list(units) + [None]
